@@ -174,7 +174,7 @@ def run(ctx):
             rec = next(iter(fin))
             fin.close()
             txt = os.path.join(d, 'pars.txt')
-            write_parameters(out, txt, select_format=('N', 1))
+            write_parameters(out, txt, select_format=[('N', 1), ('N', 3), ('A', 0)][int(rng.integers(3))])
         except Exception as exc:
             ctx.violation('pipeline:raised:%s' % type(exc).__name__, 'the pipeline raised: %r' % (exc,), wit)
             ctx.rmdir(d)
